@@ -38,6 +38,15 @@ mod verif_k_common {
         let mut b = 0usize;
         while b < 256 {
             assert!(COMMON_INPUTS[b] == FORMAT_COMMON_INPUTS[b]);
+            // ... and so is the way a rank becomes the six-bit field: rank r < 63 is stored as r + 1, the value 0 means
+            // "not common, the byte follows explicitly" (a writer and a reader that shift both by one still agree with
+            // each other, and with nobody else)
+            let rank = FORMAT_COMMON_INPUTS[b];
+            let field = if rank < 63 { rank + 1 } else { 0 };
+            assert!(common_idx(b as u8, 0b111111) == field);
+            if field != 0 {
+                assert!(common_input(field) == Some(b as u8));
+            }
             b += 1;
         }
         kani::cover!(true);
